@@ -84,7 +84,12 @@ def to_datetime(obj):
         # dt is datetime.datetime(2017, 12, 4, 12, 0)
     """
 
-    if isinstance(obj, datetime):
+    if isinstance(obj, pd.Timestamp):
+        # A pandas.Timestamp is a datetime, too, but it is not what this
+        # function promises (numpy arithmetic with arrays of datetime objects
+        # fails with it, see FileSet.find_closest):
+        return obj.to_pydatetime()
+    elif isinstance(obj, datetime):
         return obj
     else:
         return pd.to_datetime(obj).to_pydatetime()
